@@ -337,6 +337,14 @@ class Machine:
             res.verdict = "RESOURCE"
             res.why = str(e)
             res.line = instrs[pc].line if pc < n else -1
+        except (IndexError, KeyError, TypeError, ValueError, AttributeError) as e:
+            # an instruction the assembler front-end could not parse completely (missing / malformed
+            # immediates): the real AVM would never have accepted the program
+            res.verdict = "FAIL"
+            res.why = "malformed instruction: %r" % (e,)
+            res.cat = "malformed"
+            res.line = instrs[pc].line if pc < n else -1
+            res.pc = pc
         res.steps = steps
         res.max_stack = mx
         res.scratch = self.scratch
